@@ -17,6 +17,7 @@ import (
 	"strconv"
 	"strings"
 	"sync"
+	"syscall"
 	"time"
 
 	"verif/core"
@@ -370,6 +371,13 @@ func orchestrate(id, tier string) int {
 	if m.Shards != nil {
 		n = m.Shards(tier)
 	}
+	watchdog := 40 * time.Minute
+	if tier == "thorough" {
+		watchdog = 6 * time.Hour
+	}
+	if v, err := strconv.Atoi(os.Getenv("VERIF_WATCHDOG_S")); err == nil && v > 0 {
+		watchdog = time.Duration(v) * time.Second
+	}
 	var wg sync.WaitGroup
 	errs := make([]error, n)
 	for i := 0; i < n; i++ {
@@ -384,7 +392,26 @@ func orchestrate(id, tier string) int {
 			if m.Race {
 				cmd.Env = append(cmd.Env, "GORACE=halt_on_error=0 log_path="+filepath.Join(dir, fmt.Sprintf("race.%d", i)))
 			}
-			errs[i] = cmd.Run()
+			if err := cmd.Start(); err != nil {
+				errs[i] = err
+				return
+			}
+			done := make(chan error, 1)
+			go func() { done <- cmd.Wait() }()
+			select {
+			case errs[i] = <-done:
+			case <-time.After(watchdog):
+				// generous wall-clock watchdog: its firing is "inconclusive" (for C08, whose
+				// subject is that every call returns, the journalled case is the witness)
+				cmd.Process.Signal(syscall.SIGQUIT) // goroutine dump into the log
+				select {
+				case <-done:
+				case <-time.After(5 * time.Second):
+					cmd.Process.Kill()
+					<-done
+				}
+				errs[i] = fmt.Errorf("watchdog: no result after %v", watchdog)
+			}
 		}(i)
 	}
 	wg.Wait()
